@@ -287,6 +287,30 @@ def confirm(chk, bad, prop):
             fails.append(out[-200:])
         elif started != want:
             devs.append(('fail_fast builder=%s cli=%s: %d scenarios started, specification %d' % (b, c, started, want), path))
+    # each part falls back independently: one of --retry / --retry-after on the CLI, the other one on the builder
+    lines = ['builder retries=2', 'cli retry_after_ms=1'] + one + ['step x0 always_fail']
+    res, out, path = runit('retry-builder-count-cli-delay', lines)
+    if res is None:
+        fails.append(out[-200:])
+    elif attempts(out, 'x0') != 3:
+        devs.append(('retries=2 on the builder, --retry-after on the CLI: %d attempts, specification 3' % attempts(out, 'x0'), path))
+    lines = ['builder retry_after_ms=400', 'cli retry=1'] + one + ['step x0 fail_first=1']
+    res, out, path = runit('retry-cli-count-builder-delay', lines)
+    ts = [int(x) for x in re.findall(r'LOG enter step \[x0\] call=\d+ .* t=(\d+)', out)]
+    if res is None or len(ts) != 2:
+        fails.append(out[-200:])
+    elif (ts[1] - ts[0]) < 300:
+        devs.append(('retry_after=400ms on the builder, --retry 1 on the CLI: gap %d ms, specification >= 400' % (ts[1] - ts[0]), path))
+    # fail-fast given by the builder / the CLI also stops ingesting after a parser error
+    for (b, c) in ((1, 0), (0, 1)):
+        lines = ['builder max_concurrent=1' + (' fail_fast=1' if b else '')] + (['cli fail_fast=1'] if c else []) + \
+                ['feature', '| Feature: f', '|   Scenario: s0', '|     Given x0', 'parse_error', 'feature', '| Feature: g', '|   Scenario: s1', '|     Given x1']
+        res, out, path = runit('failfast-parser-error-b%s-c%s' % (b, c), lines)
+        started = len(re.findall(r'LOG EV feature\[\w+\]:scenario\[s\d\]:started', out))
+        if res is None:
+            fails.append(out[-200:])
+        elif started != 1:
+            devs.append(('fail_fast builder=%s cli=%s with a parser error between two features: %d scenarios started, specification 1' % (b, c, started), path))
     for (b, c, want) in (('@a', None, 2), ('@a', '@b', 1), ('@b', '@a', 2), (None, '@a', 2)):
         lines = ['builder retries=1' + (' retry_filter=%s' % b if b else '')] + (['cli retry_filter=%s' % c] if c else []) + one + ['step x0 always_fail']
         res, out, path = runit('filter-b%s-c%s' % (b, c), lines)
